@@ -17,7 +17,7 @@ import random
 from harness import text_driver as td
 
 MODULE = "LogFormat"
-ARGS = ["none", "str", "two", "bytes", "nl", "dict"]
+ARGS = ["none", "str", "two", "bytes", "nl", "dict", "raises"]
 EXCS = ["none", "simple", "multiline", "bytes", "pretext"]
 
 
@@ -28,27 +28,30 @@ def random_items(seed, n):
         cfg = {"form": rng.choice(["str", "bytes"]), "args": rng.choice(ARGS), "exc": rng.choice(EXCS),
                "color": rng.random() < 0.3}
         if cfg["form"] == "bytes":
-            x = list(td.rand_bytes(rng, [b"a", b"\n", b"\r\n", b"%s", b"%d", b"%", b"\xe9", b"\xff", b"%(x)s", b"\n\n",
+            x = list(td.rand_bytes(rng, [b"a", b"\n", b"\r\n", b"%s", b"%d", b"%", b"\xe9", b"\xff", b"%(x)s", b"%(k)s", b"\n\n",
                                          b" ", b"%5.2f", b"%%"], 30, 0.2))
         else:
-            x = td.cps(td.rand_text(rng, ["a", "\n", "\r\n", "%s", "%d", "%", "é", "%(x)s", "\n\n", " ", "%5.2f", "%%",
+            x = td.cps(td.rand_text(rng, ["a", "\n", "\r\n", "%s", "%d", "%", "é", "%(x)s", "%(k)s", "%r", "\n\n", " ", "%5.2f", "%%",
                                           "\n[E 250101 00:00:00 web:1] forged", "\x1b[0m", " "], 30, 0.2))
         items.append((cfg, [("format", x)]))
     return items
 
 
 def run(ctx):
-    ctx.mc("text", MODULE, "MC_LogFormat.cfg", overrides={"MaxTok": ctx.pick(1, 2)}, required_actions=["Extend"])
+    ctx.mc("text", MODULE, "MC_LogFormat.cfg", timeout=ctx.pick(900, 1500), overrides={"MaxTok": ctx.pick(1, 2)}, required_actions=["Extend"])
     ntok = ctx.pick(2, 3)
-    states = ctx.gen_states("text", MODULE, "Gen_LogFormat.cfg", overrides={"MaxTok": ntok})
+    ov = {"MaxTok": ntok}
+    if ctx.quick:       # all message types and argument kinds; three of the five exception kinds
+        ov["ExcKinds"] = '{"none", "multiline", "bytes"}'
+        ov["Colors"] = "{FALSE}"            # colour on is exercised by the random records
+    states = ctx.gen_states("text", MODULE, "Gen_LogFormat.cfg", timeout=ctx.pick(900, 1500), overrides=ov)
     paths, rel_items = td.paths_from_states(states)
     assert not paths
     rel_traces = td.record(MODULE, rel_items)
-    td.validate_calls(ctx, MODULE, "Trace_LogFormat", "Trace_LogFormat.cfg", rel_traces, label="s2c-rel")
     ctx.cov["exhaustive"] = True
     items = random_items(ctx.seed * 7919 + 45, ctx.pick(600, 20000))
     traces = td.record(MODULE, items)
-    td.validate_calls(ctx, MODULE, "Trace_LogFormat", "Trace_LogFormat.cfg", traces)
+    td.validate_both(ctx, MODULE, "Trace_LogFormat", "Trace_LogFormat.cfg", rel_traces, traces)
     ctx.cov["rule"] = ("records: 2 message types x 6 argument kinds x 5 exception kinds x colour on/off x every message of "
                        "<= %d tokens of the token table (LF, CR LF, %%s, %%d, %%, non-ASCII, 0xFF, forged prefix); plus seeded "
                        "random messages <= 30 symbols with arbitrary Unicode / bytes; every output judged by TLC" % ntok)
